@@ -26,7 +26,8 @@ RULE = (
     "(b) solver outputs: real yices-smt2 (halmos' flags and plain --smt2-model-format) and z3 run on small queries that force "
     "known values on p_*/halmos_* variables of random widths, with and without an f_evm_ function in the model, guards `OP(x,c)==k && x CMP b` (SDIV/SMOD/SAR/SIGNEXTEND/DIV/MOD by powers of two and small constants, negative non-multiple "
     "dividends) executed by the real SEVM, the failing path solved and labelled by the real loop, valid models and unsat verdicts judged "
-    "against an independent Yellow-Paper evaluation of the guard; the real solve_end_to_end + callback flow with --dump-smt-directory for same-named functions / restarting path ids / a rerun "
+    "against an independent Yellow-Paper evaluation of the guard; mixed Bool/word bitwise guards `BITOP(cmp(a,c), w(y)) != 0` (AND/OR/XOR of a "
+    "comparison result with y, y & mask, y << k, y >> k, both operand orders) judged the same way; the real solve_end_to_end + callback flow with --dump-smt-directory for same-named functions / restarting path ids / a rerun "
     "into the same directory (every valid model replayed on THIS path's conditions), plus synthetic "
     "outputs (layout/whitespace variants, piped names, short names, duplicates, junk, first-line variants) through the real "
     "from_result / parse_model_str / is_model_valid / _solve_end_to_end_callback vs the Lean model; a case is distinct by its text."
@@ -464,6 +465,88 @@ def correspond(ctx):
             if gkind not in ("sat", "unsat"):
                 ctx.count(f"solver-timing:guard:{op}:{gkind}")
             K.close_function_ctx(gf)
+
+    # mixed Bool/word bitwise guards: `if (BITOP(cmp(a, c1), w(y)) != 0) fail()` where cmp leaves a Bool-typed item on halmos' stack and
+    # w(y) is a general word (y, y & even-mask, y << k, y >> k): bit-level on the EVM (cmp is 0/1, so AND only sees bit 0 of w).
+    eng2 = K.Engine(nvars=2)
+
+    def word_fn(kind, kk):
+        if kind == "y":
+            return [("push", 32), "CALLDATALOAD"], (lambda yv: yv)
+        if kind == "mask":
+            return [("push", 32), "CALLDATALOAD", ("push", kk), "AND"], (lambda yv: yv & kk)
+        if kind == "shl":
+            return [("push", 32), "CALLDATALOAD", ("push", kk), "SHL"], (lambda yv: (yv << kk) % M256)
+        if kind == "shr":
+            return [("push", 32), "CALLDATALOAD", ("push", kk), "SHR"], (lambda yv: yv >> kk)
+        raise ValueError(kind)
+
+    def cmp_fn(cname, c1):
+        if cname == "ISZERO":
+            return [("push", 0), "CALLDATALOAD", "ISZERO"], (lambda av: int(av == 0))
+        return [("push", c1 % M256), ("push", 0), "CALLDATALOAD", cname], {
+            "LT": lambda av: int(av < c1 % M256), "GT": lambda av: int(av > c1 % M256), "EQ": lambda av: int(av == c1 % M256),
+            "SLT": lambda av: int(sg(av) < sg(c1)), "SGT": lambda av: int(sg(av) > sg(c1))}[cname]
+
+    bit_cases = [("AND", "LT", 5, "mask", 6), ("AND", "LT", 5, "y", 0), ("AND", "LT", 5, "shl", 1), ("AND", "GT", 3, "mask", 0xF0), ("AND", "EQ", 7, "mask", 2),
+                 ("AND", "SLT", -1, "mask", 1 << 255), ("AND", "ISZERO", 0, "shl", 8), ("AND", "SGT", -5, "mask", 0xFE), ("AND", "LT", 5, "mask", 7),
+                 ("AND", "LT", 5, "shr", 1), ("OR", "LT", 5, "mask", 6), ("XOR", "LT", 5, "mask", 6), ("XOR", "EQ", 7, "mask", 1), ("OR", "ISZERO", 0, "shl", 1)]
+    if ctx.tier != "quick":
+        for _ in range(40):
+            bit_cases.append((rng.choice(["AND", "AND", "OR", "XOR"]), rng.choice(["LT", "GT", "EQ", "SLT", "SGT", "ISZERO"]), rng.randrange(-6, 9),
+                              rng.choice(["mask", "mask", "shl", "shr", "y"]), rng.choice([1, 2, 6, 8, 0xFE, 0xFF, 1 << 255, 3])))
+    for bi, (bop, cname, c1, wk, kk) in enumerate(bit_cases):
+        for order in ((0, 1) if ctx.tier != "quick" else (bi % 2,)):      # which operand is pushed first (Bool on top or word on top)
+            wcode, wf = word_fn(wk, kk if wk == "mask" else kk % 256)
+            ccode, cf = cmp_fn(cname, c1)
+            items = (wcode + ccode if order == 0 else ccode + wcode) + [bop, ("push", "FAIL"), "JUMPI", "STOP", ("label", "FAIL"), ("push", 0), ("push", 0), "REVERT"]
+            fn = {"AND": lambda p_, q_: p_ & q_, "OR": lambda p_, q_: p_ | q_, "XOR": lambda p_, q_: p_ ^ q_}[bop]
+            fails = lambda av, yv: fn(cf(av % M256), wf(yv % M256)) != 0      # noqa: E731
+            desc = f"{bop}({cname}(a,{c1}), {wk}[{kk}](y)) != 0 [order {order}]"
+            grid_a = [0, 1, 4, 5, 7, 8, M256 - 1, M256 - 6, 1 << 255]
+            grid_y = [0, 1, 2, 3, 4, 6, 7, 8, 0x10, 0xFF, 0x100, 1 << 255, M256 - 1, M256 - 2]
+            witness = next(((av, yv) for av in grid_a for yv in grid_y if fails(av, yv)), None)
+            try:
+                exs = eng2.run(K.asm(items))
+            except Exception as e:
+                ctx.count(f"engine-error:{type(e).__name__}")
+                continue
+            failing = [ex for ex in exs if ex.context.output.error is not None]
+            ctx.case(f"bitguard|{desc}", nontrivial=True)
+            if not failing:
+                ctx.count(f"bitguard:{bop}:no-failing-path:witness={witness is not None}")
+                if witness:
+                    ctx.violation(f"counterexample-lost[{bop}-bool-word]", f"{desc}: a={witness[0]}, y={hex(witness[1])} reaches the failure on the EVM but halmos explores no failing path",
+                                  {"kind": "bitguard", "case": [bop, cname, c1, wk, str(kk), order]})
+                continue
+            sname, scmd = (("yices", f"{yices} --smt2-model-format --bvconst-in-decimal") if bi % 3 else ("z3", z3bin))
+            gargs = eng.args(solver_command=scmd, solver_timeout_assertion=6.0)
+            for fx in failing:
+                gf = K.mk_function_ctx(gargs, "test", "B")
+                gpc = K.path_ctx(gargs, bi, gf.solving_ctx, fx.path.to_smt2(gargs))
+                gout = solve_end_to_end(gpc)
+                gf.call_sequences[bi] = ""
+                gh = CounterexampleHandler(ctx=gf, is_invariant=False, is_probe=False, flamegraph_enabled=False, potential_flamegraphs={}, submitted_futures=[])
+                gfut = Future()
+                gfut.set_result(gout)
+                with contextlib.redirect_stdout(io.StringIO()), contextlib.redirect_stderr(io.StringIO()):
+                    gh._solve_end_to_end_callback(gfut, ex=None, path_ctx=gpc, description=None)
+                gkind = gout.result if isinstance(gout.result, str) else str(gout.result)
+                ctx.count(f"bitguard:{bop}:{wk}:{sname}:{gkind}:{'valid' if gf.valid_counterexamples else 'invalid' if gf.invalid_counterexamples else 'none'}:witness={witness is not None}")
+                for m in gf.valid_counterexamples:
+                    vals = {v.full_name[:3]: v.value for v in m.model.values()}
+                    av, yv = vals.get("p_x", 0), vals.get("p_y", 0)
+                    if not fails(av, yv):
+                        ctx.violation(f"valid-counterexample-does-not-reach-failure[{bop}-bool-word]",
+                                      f"{desc} ({sname}): a={av}, y={hex(yv)} is reported as a valid counterexample, but on the EVM {cname} gives {cf(av)}, the word is "
+                                      f"{hex(wf(yv))} and {bop} of them is 0: the run ends in STOP (path conditions {[str(cn)[:70] for cn in fx.path.conditions]})",
+                                      {"kind": "bitguard", "case": [bop, cname, c1, wk, str(kk), order], "a": str(av), "y": str(yv)})
+                if gkind == "unsat" and witness and len(failing) == 1:
+                    ctx.violation(f"counterexample-lost[{bop}-bool-word]", f"{desc} ({sname}): a={witness[0]}, y={hex(witness[1])} reaches the failure on the EVM but the failing "
+                                                                        f"path's query is unsat", {"kind": "bitguard", "case": [bop, cname, c1, wk, str(kk), order]})
+                if gkind not in ("sat", "unsat"):
+                    ctx.count(f"solver-timing:bitguard:{gkind}")
+                K.close_function_ctx(gf)
 
     # non-default --dump-smt-directory: same-named functions of different contracts and reruns share DIR/<function>/ and path ids
     # restart at 0.  Real solve_end_to_end + callback per path; every model routed to the valid list must satisfy THIS path's
